@@ -23,6 +23,8 @@ for d in sorted(glob.glob(os.path.join(root, "seeded", "C*-r*"))):
     first = meta.get("first_run_caught_by")
     if first is None:
         first = meta.get("caught_by_quick_checks")
+    if first is None and "first_run_own_check" in meta:
+        first = meta["first_run_own_check"]
     full = own = None
     tests = demo = ""
     f = os.path.join(full_dir, name + ".json")
@@ -54,11 +56,12 @@ for d in sorted(glob.glob(os.path.join(root, "seeded", "C*-r*"))):
     if demo and demo != "0/1":
         note = (note + "; " if note else "") + f"demonstration now exits {demo} (without/with the change) on the current tree"
     stats["n"] += 1
-    everything = set(full or []) | set(first or []) | ({own_id} if own else set())
+    everything = set(full or []) | set(first or []) | set(meta.get("also_caught_by", [])) | ({own_id} if own else set())
     stats["caught"] += bool(everything)
     stats["own"] += bool(own)
     rows.append((name, ", ".join(os.path.basename(x) for x in meta.get("files", [])), meta["summary"][:140].replace("|", "/").replace("\n", " "),
-                 ",".join(first) if first is not None else "-", ",".join(full) if full is not None else "(own check only)",
+                 (",".join(first) if first else ("(own check: missed)" if "first_run_own_check" in meta else "-")) if first is not None else "-",
+                 ",".join(full) if full is not None else ("own check only" + ("; other checks tried: " + ",".join(meta["also_caught_by"]) if meta.get("also_caught_by") else "")),
                  own_txt, tests.split(" in ")[0], note.replace("|", "/")))
 
 with open(os.path.join(root, "seeded", "RESULTS.md"), "w") as out:
@@ -66,9 +69,11 @@ with open(os.path.join(root, "seeded", "RESULTS.md"), "w") as out:
     out.write(
         "Each change was produced by an independent sub-agent that saw only the text of one property (see `meta.json`), passes the\n"
         "repository's 82 tests and fails its own demonstration.  Columns: *first run* = checks that caught it when it was first\n"
-        "tried (before any strengthening made because of it); *final matrix* = every registered quick check (seed 0) run against\n"
-        f"the change at /verif commit {commit} (`tools/finalmatrix.sh`; rounds 1-3 were re-run against their own property's check\n"
-        "only); *own* = caught by the check of the property it was written against, at that commit.\n\n"
+        "tried (before any strengthening made because of it; from round 8 on only the change's own property's check was run first);\n"
+        "*final matrix* = every registered quick check (seed 0) where such a run exists, otherwise the own check only;\n"
+        f"*own* = caught by the check of the property it was written against in the last own-check run (`tools/seedmatrix.sh` with\n"
+        f"SEED_CHECKS=own, seed 0; rounds 1-7 at the commit of round 10, re-run at {commit} where they had been missed; rounds 8-12 at {commit}).\n"
+        "Changes noted as neutralised no longer apply or no longer fail their demonstration since a later `fix:` commit.\n\n"
         f"Totals: {stats['n']} changes, {stats['caught']} caught by at least one check, {stats['own']} by their own property's check.\n\n"
     )
     out.write("| change | file(s) | what was changed | first run | final matrix | own | suite with change | note |\n|---|---|---|---|---|---|---|---|\n")
